@@ -394,6 +394,20 @@ def selected(fields, kvs):
     return None
 
 
+def sections_present(fields, kvs):
+    """every selected subcommand (recursively) has its section in the configuration"""
+    s = sub_of(fields)
+    if s is None or not isinstance(kvs, dict):
+        return True
+    sel = selected(fields, kvs)
+    if sel is None:
+        return True
+    cfs = dict((c, f) for c, f in s[1]["choices"]).get(sel)
+    if cfs is None or not isinstance(kvs.get(sel), dict) or leafless(kvs.get(sel)):
+        return False
+    return sections_present(cfs, kvs[sel])
+
+
 def class_fields(node, modname, path):
     for cname, cfs in node["classes"]:
         if path == modname + "." + cname:
@@ -422,6 +436,8 @@ def positions(fields, kvs, modname, path=(), nsect=0):
                     yield from positions(cfs, v, modname, path + [k], nsect + 1)
                     req_below = [p for kind, p, ns in positions(cfs, v, modname, path + [k], nsect + 1)
                                  if kind == "required" and ns == nsect + 1 and all(isinstance(x, str) and x != "init_args" for x in p[len(path):])]
+                    # a required subcommand of the section's own parser is also "a required key below"
+                    req_below += [p + [d] for kind, p, d in positions(cfs, v, modname, path + [k], nsect + 1) if kind == "nosub" and p == path + [k]]
                     if req_below and isinstance(kvs.get(s[0]), str):
                         yield ("branch", path + [k], req_below)
             continue
@@ -798,7 +814,7 @@ def run_real(fn):
             return ("exc", type(ex).__name__, str(ex)[:300])
 
 
-CHANNELS = ["object", "json", "yaml", "file", "argv", "env", "envcfg"]
+CHANNELS = ["object", "json", "yaml", "file", "argv", "env", "envcfg", "object_nodef"]
 
 
 def run_channel(rng, channel, parser, fields, cfg, tmpdir):
@@ -808,6 +824,11 @@ def run_channel(rng, channel, parser, fields, cfg, tmpdir):
     if channel == "object":
         obj = copy.deepcopy(cfg)
         return run_real(lambda: parser.parse_object(obj))
+    if channel == "object_nodef":
+        # without the defaults the sections of subcommands are not completed: required keys of the selected subcommand
+        # are enforced by the recursion of check_required alone
+        obj = copy.deepcopy(cfg)
+        return run_real(lambda: parser.parse_object(obj, defaults=False))
     if channel == "json":
         return run_real(lambda: parser.parse_string(json.dumps(cfg)))
     if channel == "yaml":
@@ -970,7 +991,8 @@ def oracle_judge(mut, res):
         rel = ".".join(parser_relative(mut["path"]))
         if not any(re.search(r"(?<![A-Za-z0-9_.])" + re.escape(".".join(parser_relative(mut["path"])[i:])) + r"(\.[A-Za-z]|(?![A-Za-z0-9_]))", msg)
                    for i in range(len(parser_relative(mut["path"])))):
-            return "the error names no key below %s: %r" % (rel, msg[:300])
+            if not any(mentions_suffix(msg, parser_relative(p)) for p in mut["below"]):
+                return "the error names no key below %s: %r" % (rel, msg[:300])
         return None
     if kind == "nosub":
         if not delimited(msg, mut["dest"]):
@@ -1097,6 +1119,11 @@ def process_case(ctx: Ctx, case: Case, muts, channels_per_mut, tmpdir, stats):
         if mut is None:
             chans = list(CHANNELS)
         for ch in chans:
+            if ch == "object_nodef" and mut is not None and (mut.get("cls") == "unselected" or mut["kind"] == "scalar-group"
+                                                              or (mut["kind"] == "null" and "below" in mut)):
+                continue      # without defaults a lone non-selected section is kept and validated: not the finding class
+            if ch == "object_nodef" and not (mut is not None and mut["kind"] == "remove-branch") and not sections_present(case.fields, cfg):
+                continue      # defaults=False and a named subcommand without section: AttributeError in get_subcommands (C03/C17 territory)
             res = run_channel(rng, ch, case.parser, case.fields, cfg, tmpdir)
             if res is None:
                 stats["inexpressible"] += 1
@@ -1106,7 +1133,7 @@ def process_case(ctx: Ctx, case: Case, muts, channels_per_mut, tmpdir, stats):
             ctx.hist("mutation", mut["kind"] + ("/" + mut["cls"] if mut and mut.get("cls") else "") if mut else "valid")
             replay = {"kind": "oracle", "spec": case.fields, "cfg": case.ph(case.cfg), "mut": case.ph(mut) if mut else None, "channel": ch,
                       "input": case.ph(list(res[2:])) if len(res) > 2 and ch in ("argv", "env") else None}
-            if ch == "object" and mres is not None:
+            if ch in ("object", "object_nodef") and mres is not None:
                 d = compare_model(mut, mres, res)
                 if d is not None:
                     ctx.tie_break("correspondence Validate (model vs parse_object) disagrees: " + d[:200],
